@@ -128,6 +128,14 @@ class Expi:
         return {"type": "amp*exp(i k x)", "k": self.k, "amp": [self.amp.real, self.amp.imag]}
 
 
+def off_by(m, v, e):
+    """distance between result v and expectation e as the method's tolerance applies to it: Clenshaw-Curtis integrates the real
+    and the imaginary part separately to the requested tolerance (max of the two component errors), every other method is
+    judged on the modulus"""
+    dr, di = abs(float(v[0] - e[0])), abs(float(v[1] - e[1]))
+    return max(dr, di) if m["m"] == "cc" else math.hypot(dr, di)
+
+
 def cdiff(v, e):
     """|v - e| for v a pair of Fractions/floats and e likewise (exact when both are Fractions)"""
     dr, di = v[0] - e[0], v[1] - e[1]
@@ -539,6 +547,68 @@ def build_cases(ctx, rng, deep=False, counts=None):
                   "f": {"t": "poly2", "c": [[[hx(re), hx(im)] for re, im in row] for row in cjk]}, "limit_ms": LIMIT_2D_MS}
             C.add(j3)
             C.checks.append({"kind": "poly2", "id": j3["id"], "method": m, "rect": [a, b, c, d], "c": cjk})
+    # ---- H2: the adaptive methods in 2-D beyond bicubics: exp(i(kx x + ky y)) and products of degree 5..7 at tight tolerances
+    # (the nested form hands the SAME tolerance to both levels: C12_adaptive_2d_nest, C12_cc_gk_adapters)
+    m2a = [{"m": "asimp", "tol": hx(t), "depth": 40} for t in ([1e-6, 1e-8] if quick else [1e-5, 1e-6, 1e-7, 1e-8, 1e-9])]
+    m2a += [{"m": "cc", "tol": hx(t)} for t in ([1e-8] if quick else [1e-6, 1e-9, 1e-12])]
+    for m in m2a:
+        for kind in ("expi2", "sepexp", "poly"):
+            a = rng.uniform(-1.0, 0.5)
+            b = a + rng.uniform(1.0, 2.0)
+            c = rng.uniform(-1.0, 0.5)
+            d = c + rng.uniform(1.0, 1.5)
+            t = fl(m["tol"])
+            if kind == "poly":
+                p, q = C.cpoly(rng.randint(5, 7)), C.cpoly(rng.randint(5, 7))
+                fj = {"t": "sep", "p": p.job(), "q": q.job()}
+                ex = cmulq(p.exact(a, b), q.exact(c, d))
+                S = p.scale(a, b) * q.scale(c, d)
+                desc = f"p(x) q(y), p = {p.desc()}, q = {q.desc()}"
+            else:
+                kx, ky = rng.uniform(2.0, 6.0) * rng.choice([-1, 1]), rng.uniform(2.0, 5.0) * rng.choice([-1, 1])
+                amp = cmath.exp(1j * rng.uniform(0, 2 * math.pi))
+                ex_c = Expi(kx, amp).exact(a, b)
+                ey_c = Expi(ky, 1.0).exact(c, d)
+                ex = cmulq(ex_c, ey_c)
+                S = abs(b - a) * abs(d - c)
+                if kind == "expi2":
+                    fj = {"t": "expi2", "kx": hx(kx), "ky": hx(ky), "amp": [hx(amp.real), hx(amp.imag)]}
+                else:
+                    fj = {"t": "sep", "p": Expi(kx, amp).job(), "q": Expi(ky, 1.0).job()}
+                desc = f"amp exp(i(kx x + ky y)), kx = {kx!r}, ky = {ky!r}, amp = {[amp.real, amp.imag]}"
+            j = {"id": C.jid("t"), "op": "int2", "method": m, "a": hx(a), "b": hx(b), "c": hx(c), "d": hx(d), "f": fj, "limit_ms": LIMIT_2D_MS}
+            C.add(j)
+            # the inner integrals are each within tol, integrated over the outer side; the outer integration adds tol
+            C.checks.append({"kind": "accuracy2", "id": j["id"], "method": m, "rect": [a, b, c, d], "exact": ex, "desc": desc,
+                             "tol": t * (1.0 + abs(b - a)) + TOL12 * S})
+    # nest consistency by evaluation counts (sharp where accuracy is not: both methods are far more accurate than asked).
+    # f(x,y) = g(x) on a unit-height strip: every inner integral sees a constant; f(x,y) = g(y) on a unit-width strip: the
+    # outer integrand is constant.  The number of integrand evaluations of the 2-D call is then fixed by 1-D calls of the
+    # same method with the same tolerance.
+    one = Poly([(1.0, 0.0)])
+    for m in ([{"m": "asimp", "tol": hx(t), "depth": 40} for t in ([1e-8] if quick else [1e-6, 1e-8, 1e-10])] +
+              [{"m": "cc", "tol": hx(t)} for t in ([1e-8] if quick else [1e-6, 1e-8, 1e-10])]):
+        for which in ("outer", "inner"):
+            if m["m"] == "cc":
+                # k L ~ 16: Clenshaw-Curtis needs one more doubling at 1e-8 than at 1e-4, so a loosened tolerance shows in the count
+                g = Expi(rng.uniform(7.5, 8.5) * rng.choice([-1, 1]), cmath.exp(1j * rng.uniform(0, 2 * math.pi)))
+                lo = rng.uniform(-1.0, 0.0)
+                hi = lo + 2.0
+            else:
+                g = Expi(rng.uniform(5.0, 9.0) * rng.choice([-1, 1]), cmath.exp(1j * rng.uniform(0, 2 * math.pi)))
+                lo = rng.uniform(-1.0, 0.0)
+                hi = lo + rng.uniform(1.5, 2.0)
+            u0 = float(rng.randint(-2, 1))
+            if which == "outer":
+                rect, fj = [lo, hi, u0, u0 + 1.0], {"t": "sep", "p": g.job(), "q": one.job()}
+            else:
+                rect, fj = [u0, u0 + 1.0, lo, hi], {"t": "sep", "p": one.job(), "q": g.job()}
+            j = {"id": C.jid("t"), "op": "int2", "method": m, "a": hx(rect[0]), "b": hx(rect[1]), "c": hx(rect[2]), "d": hx(rect[3]),
+                 "f": fj, "limit_ms": LIMIT_2D_MS}
+            C.add(j)
+            ig = C.int1(m, lo, hi, g, trace=True)
+            ic = C.int1(m, u0, u0 + 1.0, Poly([(1.0, 1.0)]), trace=True)
+            C.checks.append({"kind": "nest2d", "id": j["id"], "ig": ig, "ic": ic, "method": m, "which": which, "rect": rect, "g": g})
     # Gauss-Kronrod 2-D (finding F5d: nested adaptive integration whose convergence test ignores the requested tolerance)
     gk2 = [(Poly([(0.0, 0.0), (1.0, 0.0)]), Poly([(0.0, 0.0), (1.0, 0.0)]), LIMIT_2D_MS),
            (Poly([(0.0, 0.0)] * 3 + [(1.0, 0.0)]), Poly([(0.0, 0.0)] * 2 + [(1.0, 0.0)]), LIMIT_2D_MS)]
@@ -704,7 +774,7 @@ def oracle(ctx, C, obs):
             if o is None:
                 continue
             exact = f.exact(a, b)
-            err = cdiff(fval_of(o), exact)
+            err = off_by(m, fval_of(o), exact)
             ctx.sample({"call": call_text(m), "interval": [a, b], "integrand": f.desc(), "result": [fl(o["val"][0]), fl(o["val"][1])],
                         "error": err, "allowed": ck["tol"], "evals": o["evals"]})
             if err > ck["tol"]:
@@ -824,7 +894,7 @@ def oracle(ctx, C, obs):
             if o is None:
                 continue
             ex = cmulq(p.exact(a, b), q.exact(c, d))
-            err = cdiff(fval_of(o), ex)
+            err = off_by(m, fval_of(o), ex)
             ctx.sample({"call": call_text(m, 2), "rect": [a, b, c, d], "result": [fl(o["val"][0]), fl(o["val"][1])], "error": err,
                         "evals": o["evals"], "ms": o["ms"]}, limit=10)
             if err > ck["tol"]:
@@ -846,6 +916,48 @@ def oracle(ctx, C, obs):
             if o and o.get("kind") == "timeout":
                 ctx.note(f"outside the property's range: Integrator::Simpson {{ divs: 0 }}.integrate does not return (usize `0 + 0 % 2 - 2` wraps in "
                          f"release builds; {o.get('evals')} integrand evaluations in {o['limit_ms']} ms); the translated acceptance predicate rejects divs = 0")
+        elif k == "accuracy2":
+            m = ck["method"]
+            a, b, c, d = ck["rect"]
+            what = f"{ck['desc']} on [{a!r},{b!r}]x[{c!r},{d!r}]"
+            ctx.count(f"2d:{mname(m)}:beyond-bicubic")
+            ctx.seen(("acc2", ck["id"]))
+            o = get(ck["id"], m, 2, what)
+            if o is None:
+                continue
+            err = off_by(m, fval_of(o), ck["exact"])
+            if err > ck["tol"]:
+                ctx.violation("S5", f"{call_text(m, 2)} is off by {err:.3e} (allowed {ck['tol']:.3e}: requested tolerance at both levels of the "
+                                    f"nested integration) on {what}", dict(msig(m), kind="accuracy", dim=2, integrand="beyond_bicubic"),
+                              {"job": job_of(C, ck["id"]), "result": [fl(o["val"][0]), fl(o["val"][1])],
+                               "expected": [float(ck["exact"][0]), float(ck["exact"][1])], "error": err, "allowed": ck["tol"], "evals": o["evals"]})
+        elif k == "nest2d":
+            m = ck["method"]
+            ctx.seen(("nest2d", ck["id"]))
+            what = f"f(x,y) = g({'x' if ck['which'] == 'outer' else 'y'}), g = {ck['g'].desc()}, on {ck['rect']}"
+            o = get(ck["id"], m, 2, what)
+            og, oc = obs.get(ck["ig"]), obs.get(ck["ic"])
+            if o is None or not (og and oc and og.get("ok") and oc.get("ok")):
+                continue
+            if m["m"] == "asimp":
+                expected = 5 * og["evals"]          # a constant is accepted at the first level: 5 evaluations
+            else:
+                def passes(ob):
+                    tr = ob.get("trace") or []
+                    for i in range(1, len(tr)):
+                        if tr[i] == tr[0]:
+                            return i, len(tr) - i
+                    return None
+                pg, pc = passes(og), passes(oc)
+                if pg is None or pc is None:
+                    continue
+                expected = pg[0] * pc[0] + pg[1] * pc[1]
+            if o["evals"] != expected:
+                ctx.violation("S5", f"{call_text(m, 2)} made {o['evals']} integrand evaluations on {what}; the nest of two 1-D integrations with the "
+                                    f"requested tolerance at BOTH levels makes {expected} (1-D call on g: {og['evals']}, on a constant: {oc['evals']})",
+                              dict(msig(m), kind="nest2d", dim=2, level=ck["which"]),
+                              {"job": job_of(C, ck["id"]), "job_g": job_of(C, ck["ig"]), "job_const": job_of(C, ck["ic"]),
+                               "evals_2d": o["evals"], "expected": expected})
         elif k == "gl_small_degree":
             o, o2 = obs.get(ck["id"]), obs.get(ck["same_as"])
             ctx.seen(("gl_small", ck["n"]))
@@ -1207,21 +1319,21 @@ def run(ctx):
             ctx.note("Gauss-Legendre certificates skipped: Proofs/C12_gl_cert.vo did not build")
     else:
         ctx.note("correspondence cases skipped: generated model did not compile")
+    findings = load_findings()
+
     def baseline(v):
-        """open defects this check re-establishes on every run (known findings F5d, F5e)"""
-        sg = v["sig"]
-        return (sg.get("kind") == "accuracy" and sg.get("method") == "AdaptiveSimpson" and sg.get("cause") == "aliased_first_panel") or \
-            (sg.get("kind") == "panic" and sg.get("method") == "GaussKonrod" and sg.get("cause") == "max_iter_exceeded") or \
-            (sg.get("kind") == "time" and sg.get("method") == "GaussKonrod" and sg.get("cause") == "nested_adaptive_2d")
+        """a violation that is an entry of known_findings.json (the shared matcher decides, not a local list): it must neither
+        stop the search for a failing input nor mask a broken obligation"""
+        return match_finding(v, findings, ctx.prop) is not None
     new_input = any(v["found_input"] and not baseline(v) for v in ctx.violations)
     if (not proved or nbad) and not new_input:
         ctx.log("S5 deep search for a failing input (a proof obligation or a correspondence case is broken)")
         for k in range(2):
             C2 = build_cases(ctx, random.Random(ctx.seed + 7919 * (k + 1)), deep=True, counts=counts)
-            C2.checks = [c for c in C2.checks if c["kind"] in ("accuracy1", "reverse1", "linear1", "separable2", "reverse2", "poly2", "threads", "eval_bound")]
+            C2.checks = [c for c in C2.checks if c["kind"] in ("accuracy1", "reverse1", "linear1", "separable2", "reverse2", "poly2", "threads", "eval_bound", "accuracy2", "nest2d")]
             need = set()
             for c in C2.checks:
-                for key in ("id", "ab", "ba", "ix", "iy"):
+                for key in ("id", "ab", "ba", "ix", "iy", "ig", "ic"):
                     if c.get(key):
                         need.add(c[key])
                 need.update(c.get("ids", []))
